@@ -171,6 +171,11 @@ def hasPrefix : Key → Key → Bool      -- hasPrefix p k : p is a prefix of k
 
 /-! ### listings -/
 
+/-- remove duplicates (keeps the last occurrence of each element) -/
+def dedup {α : Type} [DecidableEq α] : List α → List α
+  | [] => []
+  | x :: xs => if x ∈ dedup xs then dedup xs else x :: dedup xs
+
 def History.kvKeys (h : History) : List Key :=
   h.blocks.flatMap (fun d => d.kvs.map (·.key))
 
@@ -180,7 +185,7 @@ def History.cidxs (h : History) : List Cidx :=
 /-- all boxes present at `rnd` whose key has the prefix and is strictly greater than the cursor, sorted by key,
     each with its value at `rnd` -/
 def liveKv (h : History) (rnd : Nat) (pfx cursor : Key) : List (Key × Bytes) :=
-  let ks := h.kvKeys.eraseDups.filter (fun k => hasPrefix pfx k && keyLt cursor k && (kvAt h rnd k).isSome)
+  let ks := (dedup h.kvKeys).filter (fun k => hasPrefix pfx k && keyLt cursor k && (kvAt h rnd k).isSome)
   (ks.mergeSort keyLe).filterMap (fun k => (kvAt h rnd k).map (fun v => (k, v)))
 
 structure ResItem where
@@ -197,12 +202,12 @@ def resItem (h : History) (rnd : Nat) (a : Addr) (t : CType) (withParams : Bool)
 
 /-- the assets `a` holds at `rnd` with id > gt, sorted by id -/
 def liveAssets (h : History) (rnd : Nat) (a : Addr) (gt : Cidx) : List ResItem :=
-  let cs := h.cidxs.eraseDups.filter (fun c => gt < c && (resAt h rnd a c .asset).hold.isSome)
+  let cs := (dedup h.cidxs).filter (fun c => gt < c && (resAt h rnd a c .asset).hold.isSome)
   (cs.mergeSort (fun x y => x ≤ y)).map (resItem h rnd a .asset true)
 
 /-- the apps `a` is opted into or has created, at `rnd`, with id > gt, sorted by id -/
 def liveApps (h : History) (rnd : Nat) (a : Addr) (gt : Cidx) (withParams : Bool) : List ResItem :=
-  let cs := h.cidxs.eraseDups.filter (fun c => gt < c &&
+  let cs := (dedup h.cidxs).filter (fun c => gt < c &&
     ((resAt h rnd a c .app).hold.isSome || creatorAt h rnd c .app == some a))
   (cs.mergeSort (fun x y => x ≤ y)).map (resItem h rnd a .app withParams)
 
